@@ -27,6 +27,12 @@ func F3(a int8, b int64, s string) (int, string, error) { return -3, "o", nil }
 //go:noinline
 func F4(p *int, f float32, xs []int) (int16, bool) { return -4, false }
 
+//go:noinline
+func FV(s string, xs ...int) int { return -7 }
+
+//go:noinline
+func FVI(a int, xs ...interface{}) (int, error) { return -8, nil }
+
 type T struct{ v int }
 
 //go:noinline
@@ -88,22 +94,24 @@ func badCallbacks(t reflect.Type) map[string]interface{} {
 	out := map[string]interface{}{}
 	ins, outs := sig(t)
 	cp := func(x []reflect.Type) []reflect.Type { return append([]reflect.Type{}, x...) }
+	vr := t.IsVariadic()
+	last := len(ins) - 1
 	for i := range ins {
 		a := cp(ins)
 		a[i] = sizeVariant(ins[i])
-		out[fmt.Sprintf("param %d size %d->%d", i, ins[i].Size(), a[i].Size())] = zeroFn(reflect.FuncOf(a, outs, false))
+		out[fmt.Sprintf("param %d size %d->%d", i, ins[i].Size(), a[i].Size())] = zeroFn(reflect.FuncOf(a, outs, vr && i != last))
 		b := append(cp(ins[:i]), ins[i+1:]...)
-		out[fmt.Sprintf("param %d dropped", i)] = zeroFn(reflect.FuncOf(b, outs, false))
+		out[fmt.Sprintf("param %d dropped", i)] = zeroFn(reflect.FuncOf(b, outs, vr && i != last))
 	}
 	out["extra param"] = zeroFn(reflect.FuncOf(append(cp(ins), reflect.TypeOf(0)), outs, false))
 	for i := range outs {
 		a := cp(outs)
 		a[i] = sizeVariant(outs[i])
-		out[fmt.Sprintf("result %d size %d->%d", i, outs[i].Size(), a[i].Size())] = zeroFn(reflect.FuncOf(ins, a, false))
+		out[fmt.Sprintf("result %d size %d->%d", i, outs[i].Size(), a[i].Size())] = zeroFn(reflect.FuncOf(ins, a, vr))
 		b := append(cp(outs[:i]), outs[i+1:]...)
-		out[fmt.Sprintf("result %d dropped", i)] = zeroFn(reflect.FuncOf(ins, b, false))
+		out[fmt.Sprintf("result %d dropped", i)] = zeroFn(reflect.FuncOf(ins, b, vr))
 	}
-	out["extra result"] = zeroFn(reflect.FuncOf(ins, append(cp(outs), reflect.TypeOf(0)), false))
+	out["extra result"] = zeroFn(reflect.FuncOf(ins, append(cp(outs), reflect.TypeOf(0)), vr))
 	return out
 }
 
@@ -169,6 +177,11 @@ func TestC13(t *testing.T) {
 		{name: "F4", fn: F4, handle: func(b *mocker.Builder) mocker.ExportedMocker { return b.Func(F4) }, cbType: reflect.TypeOf(F4),
 			state:   func() string { return fp(func() interface{} { a, b := F4(nil, 1, nil); return fmt.Sprint(a, b) }) },
 			prepare: func(b *mocker.Builder) { b.Func(F4).Return(int16(55), true) }},
+		{name: "FV", fn: FV, handle: func(b *mocker.Builder) mocker.ExportedMocker { return b.Func(FV) }, cbType: reflect.TypeOf(FV),
+			state: func() string { return fp(func() interface{} { return FV("s", 1, 2) }) }, prepare: func(b *mocker.Builder) { b.Func(FV).Return(55) }},
+		{name: "FVI", fn: FVI, handle: func(b *mocker.Builder) mocker.ExportedMocker { return b.Func(FVI) }, cbType: reflect.TypeOf(FVI),
+			state:   func() string { return fp(func() interface{} { a, e := FVI(1, "x", 2); return fmt.Sprint(a, e) }) },
+			prepare: func(b *mocker.Builder) { b.Func(FVI).Return(55, nil) }},
 		{name: "T.M", fn: (*T).M, handle: func(b *mocker.Builder) mocker.ExportedMocker { return b.Struct(&T{}).Method("M") }, cbType: reflect.TypeOf((*T).M),
 			state: func() string { return fp(func() interface{} { return (&T{}).M(1, "s") }) }, prepare: func(b *mocker.Builder) { b.Struct(&T{}).Method("M").Return(55) }},
 		{name: "foo", fn: foo, handle: func(b *mocker.Builder) mocker.ExportedMocker { return b.ExportFunc("foo").As(func(a int) int { return 0 }) }, cbType: reflect.TypeOf(foo),
@@ -215,6 +228,9 @@ func TestC13(t *testing.T) {
 			ms = append(ms, mistake{"callback-signature", d, func(b *mocker.Builder) { tg.handle(b).Apply(cb) }})
 		}
 		nargs := len(ins) - skip
+		if tg.cbType.IsVariadic() {
+			nargs-- // a condition may list zero variadic elements: only fewer than the fixed parameters is too few
+		}
 		for k := 1; k < nargs; k++ {
 			k := k
 			ms = append(ms, mistake{"when-too-few-arguments", fmt.Sprintf("%d of %d", k, nargs), func(b *mocker.Builder) {
@@ -247,6 +263,41 @@ func TestC13(t *testing.T) {
 				}
 				vs[i] = badValue(outs[i])
 				tg.handle(b).Return(vs...)
+			}})
+		}
+		// Returns(...): a sequence whose k-th element does not fit (validated element by element)
+		for i := range outs {
+			i := i
+			if outs[i].Kind() == reflect.Interface {
+				continue
+			}
+			for _, pos := range []int{0, 1} {
+				pos := pos
+				ms = append(ms, mistake{"returns-sequence-bad-element", fmt.Sprintf("element %d, position %d: %s for %s", pos, i, sizeVariant(outs[i]), outs[i]), func(b *mocker.Builder) {
+					tuple := func(bad bool) interface{} {
+						vs := make([]interface{}, len(outs))
+						for j := range vs {
+							vs[j] = goodValue(outs[j])
+						}
+						if bad {
+							vs[i] = badValue(outs[i])
+						}
+						if len(vs) == 1 {
+							return vs[0]
+						}
+						return vs
+					}
+					if pos == 0 {
+						tg.handle(b).Returns(tuple(true), tuple(false))
+					} else {
+						tg.handle(b).Returns(tuple(false), tuple(true))
+					}
+				}})
+			}
+		}
+		if len(outs) >= 2 {
+			ms = append(ms, mistake{"returns-sequence-too-few-values", "bare values for a multi-result function", func(b *mocker.Builder) {
+				tg.handle(b).Returns(goodValue(outs[0]), goodValue(outs[0]))
 			}})
 		}
 		for _, m := range ms {
